@@ -592,6 +592,15 @@ def _upper(v):
     return v - 32 if 97 <= v <= 122 else v
 
 
+def _special_case_table(fn):
+    return [(c, [ord(x) for x in fn(chr(c))]) for c in range(128, 0x110000)
+            if not 0xd800 <= c <= 0xdfff and any(ord(x) < 128 for x in fn(chr(c)))]
+
+
+_SPECIAL_LOWER = _special_case_table(str.lower)
+_SPECIAL_UPPER = _special_case_table(str.upper)
+
+
 class VByteArray(object):
     """mutable virtual bytearray"""
 
@@ -855,11 +864,38 @@ class VStr(_SeqExtras, object):
     def __mod__(self, args):
         return fmt(self, args)
 
+    def _case(self, ascii_fn, special, real_fn):
+        """str.lower / str.upper on code points: ASCII by arithmetic; non-ASCII code points whose image contains an ASCII
+        character (KELVIN SIGN -> k, dotless i -> I, long s -> S, ligatures ...) exactly, from the interpreter's own tables;
+        any other non-ASCII code point is mapped to itself (its true image is non-ASCII as well)"""
+        out = []
+        for v in self._d:
+            if not isinstance(v, SymInt):
+                out.extend(ord(c) for c in real_fn(chr(v)))
+                continue
+            if v.hi is not None and v.hi < 128:
+                out.append(ascii_fn(v))
+                continue
+            small = v < 128
+            if (small if isinstance(small, bool) else cur().branch(small.e)):
+                out.append(ascii_fn(v))
+                continue
+            for cp, img in special:
+                if v.lo is not None and cp < v.lo or v.hi is not None and cp > v.hi:
+                    continue
+                is_cp = v == cp
+                if (is_cp if isinstance(is_cp, bool) else cur().branch(is_cp.e)):
+                    out.extend(img)
+                    break
+            else:
+                out.append(v)
+        return VStr._mk(out)
+
     def lower(self):
-        return VStr._mk([_lower(v) for v in self._d])
+        return self._case(_lower, _SPECIAL_LOWER, str.lower)
 
     def upper(self):
-        return VStr._mk([_upper(v) for v in self._d])
+        return self._case(_upper, _SPECIAL_UPPER, str.upper)
 
     def find(self, sub, start=0):
         sd = VStr(sub)._d
